@@ -137,10 +137,23 @@ def derive_seed(seed, pid, *parts) -> int:
 # ----------------------------------------------------------------------------- worker
 
 
+def _start_cover():
+    """developer aid (tools/cover.sh): FV_COVER_DIR=<dir> records which lines of flox the generated cases reach"""
+    d = os.environ.get("FV_COVER_DIR")
+    if not d:
+        return None
+    import coverage
+
+    cov = coverage.Coverage(data_file=os.path.join(d, ".coverage"), data_suffix=True, branch=True, include=["*/flox/*"])
+    cov.start()
+    return cov
+
+
 def worker(args):
     pid, tier, seed, widx, nworkers, deadline, known = args
     os.environ.setdefault("PYTHONHASHSEED", "0")
     stats = Stats()
+    cov = _start_cover()
     try:
         prop = importlib.import_module(f"fv.props.{pid.lower()}")
         _worker_enum(prop, tier, widx, nworkers, deadline, known, stats)
@@ -151,6 +164,10 @@ def worker(args):
         stats.budget_hit = True
     except BaseException:  # noqa: BLE001
         stats.harness_error = traceback.format_exc()
+    finally:
+        if cov is not None:
+            cov.stop()
+            cov.save()
     return stats.export()
 
 
